@@ -199,7 +199,10 @@ func (check typecheck) shift(n *node) error {
 			return n.cfgErrorf("invalid operation: shift count type %v, must be integer", c1.typ.id())
 		}
 	case isInt(t1):
-		// nothing to do
+		// A constant shift count must not be negative.
+		if c1.rval.IsValid() && !isUint(t1) && vInt(c1.rval) < 0 {
+			return n.cfgErrorf("invalid operation: negative shift count %v", vInt(c1.rval))
+		}
 	default:
 		return n.cfgErrorf("invalid operation: shift count type %v, must be integer", c1.typ.id())
 	}
